@@ -243,6 +243,11 @@ impl Check for MatchCheck {
                     eqs.push((i as u32, Pat::Node { op: k.t.op, pay: k.t.pay, slots: k.t.slots.clone(), kids: kk }));
                 }
             }
+            // the order of the equations decides which variables are already bound when a node
+            // is matched
+            if rng.chance(1, 2) {
+                rng.shuffle(&mut eqs);
+            }
             for (v, p) in eqs {
                 o = o.i(v as i64).s(&p.to_string());
             }
